@@ -201,15 +201,15 @@ func c53Draw(rt *rapid.T) c53Case {
 	c.GasMode = rapid.SampledFrom([]string{"", "", "strict", "source"}).Draw(rt, "gasmode")
 	c.NVals = rapid.IntRange(0, 2).Draw(rt, "nvals")
 	c.Indent = rapid.Bool().Draw(rt, "indent")
-	// (rapid favours small values: the rarer classes sit at the upper end)
-	switch rapid.IntRange(0, 9).Draw(rt, "ih") {
-	case 8:
+	// (rapid favours the ends of a range: the rarer classes sit in the middle)
+	switch rapid.IntRange(0, 19).Draw(rt, "ih") {
+	case 7:
 		c.DocIH = rapid.SampledFrom([]int64{1, 2, 57}).Draw(rt, "docih")
-	case 9:
+	case 13:
 		c.DocIH = rapid.SampledFrom([]int64{1, 2, 57}).Draw(rt, "docih")
 		c.AppIH = c.DocIH
 	}
-	switch 11 - rapid.IntRange(0, 11).Draw(rt, "invalid") {
+	switch rapid.IntRange(0, 15).Draw(rt, "invalid") - 6 {
 	case 0:
 		c.Invalid = "signerinfo-collision"
 		c.DocIH, c.AppIH = 0, 0
